@@ -58,6 +58,14 @@ def family(name, orient):
         # wind and Kz constant with height, only the HORIZONTAL diffusivities vary: no closed form applies
         c_ = lambda val: (lambda z: val + 0.0 * np.asarray(z, dtype=float))  # noqa
         return (c_(2.3 * cu), c_(2.3 * cv), lambda z: 0.3 * z**0.8 + 0.1, lambda z: 0.2 * z + 0.05, c_(0.9))
+    if name.startswith("pair-"):
+        # two of the three diffusivities COINCIDE (value for value), the third is several times larger or smaller: whatever
+        # the solver concludes from one equality (isotropy, a shared ratio) must not be extended to the third
+        sp = lambda z: 2.2 * z**0.25  # noqa
+        Kb = lambda z: 0.15 * z**0.9 + 0.05  # noqa
+        Ko = lambda z: 6.0 * (0.15 * z**0.9 + 0.05)  # noqa
+        Kx, Ky, Kz = {"pair-xz": (Kb, Ko, Kb), "pair-yz": (Ko, Kb, Kb), "pair-xy": (Ko, Ko, Kb)}[name]
+        return (lambda z: cu * sp(z), lambda z: cv * sp(z), Kx, Ky, Kz)
     if name == "const":
         c = lambda val: (lambda z: val + 0.0 * np.asarray(z))  # noqa
         return (c(2.3 * cu), c(2.3 * cv), c(1.7), c(0.6), c(0.9))
@@ -87,6 +95,8 @@ def cases(tier):
         yield {"kind": "func", "family": fam, "zgrid": zg, "dom": dom, "grid": g, "orient": o, "ns": ns}
     for fam_, zg_, dom, g in itertools.product(("veer", "kxvar"), ("uniform", "geom"), doms, grids):
         yield {"kind": "func", "family": fam_, "zgrid": zg_, "dom": dom, "grid": g, "orient": "oblique", "ns": ns}
+    for fam_, zg_, g in itertools.product(("pair-xz", "pair-yz", "pair-xy"), ("uniform", "geom"), grids):
+        yield {"kind": "func", "family": fam_, "zgrid": zg_, "dom": doms[0], "grid": g, "orient": "oblique", "ns": ns}
     # smooth wall: output AT the surface node, inside the viscous-scale sub-layer and aloft
     for dom, g in itertools.product(doms, grids):
         yield {"kind": "func", "family": "smoothwall", "zgrid": "geom", "dom": dom, "grid": g, "orient": "oblique", "ns": (64, 256, 1024), "z0": 1e-5, "lvfrac": [0.0, 0.125, 0.5]}
